@@ -87,6 +87,27 @@
             [len b] is exactly 1/2/4/8: for a constant sub-slice the translator checks the length
             statically (and rejects the program otherwise); for any other argument the panic is not
             modelled (the readers then yield 0);
+          - package encoding/binary: [binary.LittleEndian.Uint16/32/64(b)] read the first 2/4/8 bytes
+            of [b] as a little-endian word, [binary.LittleEndian.PutUint16/32/64(b[lo:hi], v)] write
+            them at offset [lo]; a longer slice is accepted (unlike nlenc), the panic on a shorter one
+            is checked statically for constant sub-slices and not modelled otherwise;
+          - a WRITTEN [[]byte] PARAMETER (fourth round; e.g. method [marshalBinary(b []byte)] of socketcan.frame) is
+            treated like the one written pointer parameter: the function returns the final contents
+            of that slice (its length never changes: only [b[i] = v], [PutUintNN(b[lo:hi], v)] and
+            [copy(b[lo:hi] / b[lo:], src)] are accepted).  ASSUMPTION: the written slice does not
+            overlap the memory of any other parameter (array fields of a pointer receiver, other
+            slices).  The call sites in /repo satisfy it (transmitter.go: a fresh [make([]byte, 16)];
+            receiver.go: the receiver's own scratch array and its own [frame] field);
+          - [x[lo:hi]] in a READ position (source of [copy], argument of a library reader, operand of
+            [len], returned value) may have non-constant integer bounds and may slice a [N]byte array
+            ([a[lo:hi]] of an array only as the source of [copy] / argument of a reader, so that no
+            alias of the array survives the statement): [bytes_slice x lo hi]; [b[lo:]] is
+            [b[lo:len(b)]].  Slice-bound panics (hi > cap, lo > hi, negative) are not modelled, as
+            before;
+          - THE ONE MODELLED PANIC: the explicit bounds-check statement [_ = b[k]] (k a constant, b a
+            []byte).  A function containing one is translated to a function into [option]:
+            [if bytes_len b <=? k then None else ...], every [return] wrapped in [Some].  Such a
+            function cannot be called from another translated function;
           - a slice whose element type is outside the subset (e.g. [[]*ValueDescription]) is kept
             as its LENGTH only ([go_len], a non-negative integer; the only operation is [len]);
           - a [string] is the [list Z] of its bytes (only constants, locals and results; no
@@ -200,6 +221,26 @@ Definition nlenc_Uint64 (b : go_bytes) : Z :=
 (** the 32-bit word (0 <= u < 2^32, the elements being bytes) read as two's complement *)
 Definition nlenc_Int32 (b : go_bytes) : Z :=
   let u := nlenc_Uint32 b in if u <? 2 ^ 31 then u else u - 2 ^ 32.
+
+(** * encoding/binary: binary.LittleEndian.UintNN / PutUintNN
+    (byte order fixed by the package, not by the host).  Unlike nlenc these accept a slice that is
+    LONGER than the word: they read / write its first 2/4/8 bytes ([_ = b[N-1]] is their bounds
+    check).  The translator checks a constant sub-slice to have at least that length; for any other
+    argument the panic on a short slice is not modelled (the readers then yield 0, the writers write
+    the bytes that exist). *)
+Definition binary_le_Uint16 (b : go_bytes) : Z := match b with b0 :: b1 :: _ => b0 + 256 * b1 | _ => 0 end.
+Definition binary_le_Uint32 (b : go_bytes) : Z :=
+  match b with b0 :: b1 :: b2 :: b3 :: _ => b0 + 256 * b1 + 65536 * b2 + 16777216 * b3 | _ => 0 end.
+Definition binary_le_Uint64 (b : go_bytes) : Z :=
+  match b with
+  | b0 :: b1 :: b2 :: b3 :: b4 :: b5 :: b6 :: b7 :: _ =>
+      b0 + 256 * b1 + 65536 * b2 + 16777216 * b3 + 2 ^ 32 * (b4 + 256 * b5 + 65536 * b6 + 16777216 * b7)
+  | _ => 0
+  end.
+(** [binary.LittleEndian.PutUintNN(b[lo:hi], v)]: a store THROUGH the sub-slice, at offset [lo] of [b] *)
+Definition binary_le_PutUint16 (b : go_bytes) (lo v : Z) : go_bytes := bytes_splice b lo (le_bytes2 v).
+Definition binary_le_PutUint32 (b : go_bytes) (lo v : Z) : go_bytes := bytes_splice b lo (le_bytes4 v).
+Definition binary_le_PutUint64 (b : go_bytes) (lo v : Z) : go_bytes := bytes_splice b lo (le_bytes8 v).
 
 (** * Slices kept as their length; strings; go/types.Typ *)
 Definition go_len := Z.
